@@ -200,6 +200,28 @@ func gen(seed uint64, tier string) {
 			}
 		}
 	}
+	// deep nesting ("at every nesting depth"): chains of collections far beyond the depth the grammar reaches, bare
+	// and with siblings before and after the nested member at every level (own mutation r17: a recursion bound)
+	for i, d := range []int{6, 7, 8, 9, 15, 16, 17, 24, 25, 31, 32, 33, 63, 64, 65, 100, 127, 128, 129, 255, 256, 257, 1000} {
+		var bare geom.Geom = geom.Point{X: float64(d), Y: coord(r)}
+		var sib geom.Geom = geom.LineString{{X: coord(r), Y: float64(d)}}
+		for j := 0; j < d; j++ {
+			bare = geom.GeometryCollection{bare}
+			sib = geom.GeometryCollection{geom.Point{X: float64(j), Y: 1}, sib, geom.MultiPoint{{X: 2, Y: float64(j)}}}
+		}
+		emit(bare, i)
+		emit(sib, i+1)
+		fmt.Fprintf(out, "rdrt %s %s %s\n", []string{"one", "half", "dataerr", "buf"}[i%4], []string{"X", "N"}[i%2], vproto.GeomToks(sib))
+	}
+	// the hex path at text lengths around 2^16, 2^20 and 2^21 characters (2·(9+16n) for a line string of n points):
+	// a bound or a scratch buffer on the text side is not reached by the binary lines above (own mutation r13)
+	for i, n := range []int{2047, 2048, 32767, 32768, 65536} {
+		ps := make([]geom.Point, n)
+		for j := range ps {
+			ps[j] = geom.Point{X: float64(j), Y: float64(j % 5)}
+		}
+		fmt.Fprintf(out, "hexrt %s %s\n", []string{"X", "N"}[i%2], vproto.GeomToks(geom.LineString(ps)))
+	}
 	// size thresholds at exactly one nesting level: 63..65, 127..130 (a 2 KiB / 4 KiB scratch buffer holds
 	// 128 / 256 points), 255..257, 2047..2049 — as a line string, multipoint, ring, member of a Multi*, in a collection
 	thr := []int{63, 64, 65, 127, 128, 129, 130, 255, 256, 257, 511, 512, 513}
